@@ -7,7 +7,7 @@ import subprocess
 ROOT = os.path.dirname(os.path.abspath(__file__))
 SRC = os.path.join(ROOT, "build", "native-src")
 TARGET = os.path.join(ROOT, "build", "native-target")
-ORACLES = {"c14_jet_codes_replay": "jets_native.rs", "c16_policy_sort_replay": "policy_native.rs", "c16_policy_roots_replay": "policy_roots_native.rs", "c02_codec_replay": "codec_native.rs", "c09_cmr_replay": "cmr_native.rs", "c19_budget_replay": "budget_native.rs", "c11_value_order_replay": "value_native.rs", "c18_dag_replay": "dag_native.rs", "c05_machine_semantics_replay": "machine_native.rs", "c05_jet_semantics_replay": "jet_semantics_native.rs", "c13_natural_replay": "natural_native.rs"}
+ORACLES = {"c14_jet_codes_replay": "jets_native.rs", "c14_jet_names_replay": "jets_native.rs", "c16_policy_sort_replay": "policy_native.rs", "c16_policy_roots_replay": "policy_roots_native.rs", "c02_codec_replay": "codec_native.rs", "c09_cmr_replay": "cmr_native.rs", "c19_budget_replay": "budget_native.rs", "c11_value_order_replay": "value_native.rs", "c18_dag_replay": "dag_native.rs", "c05_machine_semantics_replay": "machine_native.rs", "c05_jet_semantics_replay": "jet_semantics_native.rs", "c13_natural_replay": "natural_native.rs"}
 
 
 # oracles that need the library's debug assertions (built in the dev profile)
@@ -20,8 +20,9 @@ BOUNDS = {
     "c14_jet_codes_replay": "all 1267 jets, three continuations each; all 24-bit inputs per family",
     "c16_policy_roots_replay": "4105 policies: 10 leaves (trivial, unsatisfiable, after/older at and just past the environment's lock times, sha256 and key with and without preimage/signature), all and/or/threshold(1,2) nodes over pairs, single-child thresholds, a sample of 3-child thresholds with k = 0..3, and a sample of depth-2 combinations; one environment",
     "c16_policy_sort_replay": "all policies of nesting depth <= 2 over After(1..3) leaves (and/or/threshold incl. single-child and shared-Arc children): canonical, idempotent, and equal to the sorted form of the mirrored policy",
-    "c05_machine_semantics_replay": "programs over word/iden/unit/witness leaves (+ the eq_8 jet): every combinator to depth 2, composed pairwise (comp), under a word-selected case, shifted to an unaligned offset; disconnect with three left-branch shapes (incl. one returning the right branch's root); assertl/assertr and case-against-fail with the visible and the hidden side selected (expected failures); 960 executions, up to 6 input values each; debug assertions on",
-    "c05_jet_semantics_replay": "22 families of arithmetic / logic / comparison jets at 8, 16 and 32 bits, in the Core and in the Elements family (2 x 66 jets), on edge and pseudo-random operands, 5508 executions, against integer arithmetic",
+    "c14_jet_names_replay": "EXHAUSTIVE over the three jet tables (368 + 471 + 428 jets): Display then FromStr returns the jet, names are unique per family; every Core jet has an Elements namesake with the same source / target type and code '0' + the Core code",
+    "c05_machine_semantics_replay": "programs over word/iden/unit/witness leaves (+ the eq_8 jet): every combinator to depth 2, composed pairwise (comp), under a word-selected case, shifted to an unaligned offset; disconnect with three left-branch shapes (incl. one returning the right branch's root); assertl/assertr and case-against-fail with the visible and the hidden side selected (expected failures); 2073 executions (incl. side-by-side compositions whose intermediate frames are reused), up to 6 input values each; debug assertions on",
+    "c05_jet_semantics_replay": "22 families of arithmetic / logic / comparison jets at 8, 16, 32 and 64 bits, in the Core and in the Elements family (2 x 88 jets), on edge and pseudo-random operands (equal operands included), 7344 executions, against integer arithmetic",
     "c13_natural_replay": "numbers 1..=70000 and 2^p-2..2^p+2 for p <= 31 (encode, decode, bound); every 24-bit string (decode, re-encode)",
     "c18_dag_replay": "comp/pair DAGs of depth <= 3 over unit with every reuse/copy choice among the first 6 sub-DAGs per level, as commitment-time programs",
     "c11_value_order_replay": "about 2000 values of widths <= 24 bits built by constructors, by decoding padded / compact bits and by sub-value extraction (depth <= 3): all pairs for eq/cmp/hash; encode/decode, accessor/constructor inverses, products of extracted parts, pruning to unit-left and to the own type",
@@ -44,7 +45,7 @@ def _prepare(repo):
     hd = os.path.join(SRC, "verif_native")
     os.makedirs(hd, exist_ok=True)
     with open(os.path.join(SRC, "src", "lib.rs"), "a") as f:
-        for test, fn in sorted(ORACLES.items()):
+        for fn in sorted(set(ORACLES.values())):
             dst = os.path.join(hd, fn)
             open(dst, "w").write(open(os.path.join(ROOT, "native", fn)).read())
             f.write("\n#[cfg(test)]\n#[path = \"%s\"]\nmod verif_native_%s;\n" % (dst, fn[:-3]))
